@@ -51,10 +51,17 @@ func (p *planner) analyzeScript() {
 		}
 	}
 
+	// A stage that rewrites the labels column (parser, drop) and a filter never share one SELECT: WHERE
+	// sees the SELECT aliases, so `| x="1" | drop x` in one SELECT filtered on the labels after the drop,
+	// and `| drop x |= "a"` put `samples.string` into the SELECT that reads FROM main. The request is
+	// wrapped (MainRenewPlanner) wherever the pipeline switches between the two kinds of stages.
+	changesLabels := func(ppl *logql_parser.StrSelectorPipeline) bool {
+		return ppl.Parser != nil || ppl.Drop != nil
+	}
 	p.renewMainAfter = make([]bool, len(pipeline))
-	for i, ppl := range pipeline {
-		p.renewMainAfter[i] = i < len(pipeline)-1 &&
-			ppl.Parser != nil && pipeline[i+1].Parser == nil
+	for i := range pipeline {
+		p.renewMainAfter[i] = i < len(pipeline)-1 && p.labelsJoinIdx != -1 && i >= p.labelsJoinIdx &&
+			changesLabels(&pipeline[i]) != changesLabels(&pipeline[i+1])
 	}
 
 	for _, ppl := range pipeline {
